@@ -141,8 +141,10 @@ void run_algo(const Setup& s, tbb::task_group* tg, tbb::flow::graph* g, tbb::flo
             tbb::make_filter<int, void>(tbb::filter_mode::serial_out_of_order, [](int) { body_work(); }));
         break;
     }
-    case A_TG_WAIT: { Functor f; for (int i = 0; i < s.n; ++i) tg->run(f); tg->wait(); break; }
-    case A_TG_RAW: { Functor f; for (int i = 0; i + 1 < s.n; ++i) tg->run(f); tg->run_and_wait(f); break; }
+    // s.part odd: the work is submitted as task handles (defer + run / run_and_wait(task_handle&&))
+    case A_TG_WAIT: { Functor f; for (int i = 0; i < s.n; ++i) { if (s.part & 1) tg->run(tg->defer(f)); else tg->run(f); } tg->wait(); break; }
+    case A_TG_RAW: { Functor f; for (int i = 0; i + 1 < s.n; ++i) { if (s.part & 2) tg->run(tg->defer(f)); else tg->run(f); }
+                     if (s.part & 1) tg->run_and_wait(tg->defer(f)); else tg->run_and_wait(f); break; }
     case A_EXECUTE: {
         // (a task_group must be waited for before it is destroyed, also on the exceptional path: the direct
         //  body runs before the inner group has tasks)
@@ -182,7 +184,7 @@ SIM_SCENARIO(scen_c03, "c03", "C03", 6000000, 30000) {
     bool ext_cancel = sim::draw(4, "ext_cancel") == 0 && (s.a == A_TG_WAIT || s.a == A_FLOW);
     static const int ptsv[] = {0, 2, 8, 30};
     proto.points = sim::draw_of(ptsv, "points");
-    d.add(hx::fmt("%s n=%d grain=%d part=%d in_arena=%d throws:%s ext_cancel=%d points=%d", kAlgo[s.a], s.n, s.grain, s.part, (int)in_arena, fp.c_str(), (int)ext_cancel, proto.points));
+    d.add(hx::fmt("%s%s n=%d grain=%d part=%d in_arena=%d throws:%s ext_cancel=%d points=%d", kAlgo[s.a], (s.a == A_TG_WAIT || s.a == A_TG_RAW) && (s.part & 1) ? "(task_handle)" : "", s.n, s.grain, s.part, (int)in_arena, fp.c_str(), (int)ext_cancel, proto.points));
     d.publish();
     {
         std::string sites;
